@@ -32,6 +32,15 @@ CHECKS.update({
    note='Trusted: symx engine and ZSeries (z3 array with NumPy index semantics), renderer (self-checked against Python ast), reference interpreter; arithmetic uninterpreted (sound), counterexamples replayed on real float64 arrays. Outside: verbatim blocks, named-period indexes, names used as function and variable.'),
 })
 
+CHECKS.update({
+ 'C03': dict(cat='translation_validation', ref='4/C03', tech='symbolic execution of Symbol.combine, build_model_definition LAGS/LEADS arithmetic and iter_periods over z3 integers (inductive merge step; rendered integers mapped back to terms); concrete reference classification per enumerated script',
+   text='Three solver-decided obligations over unbounded integers: the merge algebra of Symbol.combine (inductive step over all 9x9 type pairs, so any number of mentions in any order), LAGS/LEADS = lags= if given else max(deepest lag, min_lags) in build_model_definition for 0..3(4) symbols, and iter_periods() default range = exactly the periods that hold the lags/leads (span length 0..4(6)). The classification/order of names per script is a concrete program-level assertion against an AST reference over the enumerated programs (no solver: the tokeniser is regex code).',
+   note='Trusted: symx; `type` shadowed in fsic.parser globals so symbolic ints report int; SInt.__format__ tokens. Program dimension enumerated. Named-period indexes outside.'),
+ 'C04': dict(cat='translation_validation', ref='4/C04', tech='z3 linear-integer no-wrap query over every logged access of the generated _evaluate (symbolic t, L); symbolic frame check of BaseModel.solve_t on parser-built models; symbolic infeasible-period query; replay on real arrays',
+   text='(a) for every enumerated program with lags/leads, every access of the generated code is shown by z3 to address t+k inside the span for ALL t in the model-derived default range (both spellings) and ALL L; (b) full solve_t on parser-built models over symbolic cells: every cell other than (endogenous, t) and status/iterations outside t is z3-equal to its initial value after return or exception; (c) rejected calls leave the whole symbolic state unchanged (C02/C06 joint paths re-run); (d) for a symbolic infeasible t no path of solve_t returns or merely fails to converge.',
+   note='Trusted: as C01/C02. Bounds: span length LAGS+LEADS+1..+3 for (b)/(d), max_iter<=2. Fortran engine and verbatim code outside.'),
+})
+
 NOT_APPLICABLE = [
  ('C11', 'Independence of copies is a statement about object identity in the CPython heap; there is no input value to make symbolic, so a solver has nothing to decide (pointer-rich heaps are a weak target of the technique).'),
  ('C13', "Quantifies over strings only; everything it depends on sits behind CPython's re engine (look-ahead, \\b, lazy quantifiers, alternative priority), str.format and exec, none of which can be executed symbolically here (z3 regex theory lacks them; CrossHair's regex model is unsound on term_re and times out on split_equations)."),
